@@ -243,6 +243,24 @@ let run_flist_enc fields = match fields with
     String.concat "" (List.map (fun b -> Printf.sprintf "%02x" (int_of_z b)) w)
   | _ -> failwith "flist_enc: want 5 fields"
 
+(* ---- generator: update decision, block checksums ---- *)
+let run_decision fields = match fields with
+  | [ac; it; d; ssize; smtime; scsum] ->
+    let dst = (match split ':' d with
+      | ["missing"] -> DstMissing
+      | ["other"] -> DstOther
+      | ["file"; sz; mt; content] -> DstFile (z_of_string sz, z_of_string mt, bytes_of_hex content)
+      | _ -> failwith "bad dst state") in
+    (match gen_decision h_native (ac = "1") (it = "1") dst (z_of_string ssize) (z_of_string smtime) (bytes_of_hex scsum) with
+     | DSkip -> "skip" | DFull -> "transfer" | DDelta -> "transfer")
+  | _ -> failwith "decision: want 6 fields"
+
+let run_gensums fields = match fields with
+  | [seed; data] ->
+    let (h, sums) = gen_sums h_native (z_of_string seed) (bytes_of_hex data) in
+    hex_of_bytes (enc_sums h sums)
+  | _ -> failwith "gensums: want 2 fields"
+
 (* ---- acl ---- *)
 let acl_rule (t : string) : rule =
   match split ':' t with
@@ -274,6 +292,9 @@ let dispatch comp fields =
   | "sender" -> run_sender fields
   | "recv" -> run_recv fields
   | "mux" -> run_mux fields
+  | "noop" -> "ok"
+  | "decision" -> run_decision fields
+  | "gensums" -> run_gensums fields
   | "flist_dec" -> run_flist_dec fields
   | "flist_enc" -> run_flist_enc fields
   | _ -> failwith ("unknown component " ^ comp)
